@@ -258,14 +258,23 @@ Proof.
   - intros (rr & cc & Hr & Hc & ->). exists cc. split; [assumption|]. apply in_map_iff. eauto.
 Qed.
 
+Lemma target_status_T2_valid r c i j ps :
+  target_status r c (T2 i j) = CValid ps ->
+  exists ri cj, comp_status r i = CValid ri /\ comp_status c j = CValid cj /\ ps = lin2 r ri cj.
+Proof.
+  cbn [target_status].
+  destruct (comp_status r i) as [ri| |w]; destruct (comp_status c j) as [cj| |w']; intro H;
+    try discriminate; try (destruct ri; discriminate); try (destruct cj; discriminate).
+  destruct ri; injection H as <-; eauto.
+Qed.
+
 Lemma target_status_lt r c t ps : target_status r c t = CValid ps -> Forall (fun p => p < r * c) ps.
 Proof.
-  destruct t as [|i|i j]; cbn [target_status]; intro H.
-  - injection H as <-. apply Forall_forall. intros p Hp. apply in_seq in Hp. lia.
+  destruct t as [|i|i j]; intro H.
+  - cbn in H. injection H as <-. apply Forall_forall. intros p Hp. apply in_seq in Hp. lia.
   - eapply comp_status_lt; eassumption.
-  - destruct (comp_status r i) as [ri| |w] eqn:Ei; destruct (comp_status c j) as [cj| |w'] eqn:Ej;
-      try discriminate; try (destruct ri; discriminate); try (destruct cj; discriminate).
-    injection H as <-. apply Forall_forall. intros p Hp.
+  - apply target_status_T2_valid in H as (ri & cj & Ei & Ej & ->).
+    apply Forall_forall. intros p Hp.
     apply in_lin2 in Hp as (rr & cc & Hr & Hc & ->).
     apply comp_status_lt in Ei, Ej. rewrite Forall_forall in Ei, Ej.
     specialize (Ei _ Hr). specialize (Ej _ Hc). nia.
@@ -397,10 +406,10 @@ Proof.
   destruct t as [|i|i j]; try discriminate;
     (destruct (Nat.ltb (length vs) 2); [discriminate|]);
     (destruct (negb (whole_shape_ok _ x col)); [discriminate|]);
-    (destruct (Nat.ltb_spec (length vs) (length ps)); [discriminate|]);
-    (destruct (Nat.ltb_spec (length ps) (length vs)); [discriminate|]);
+    (destruct (Nat.ltb_spec (length vs) (length ps)) as [Hl1|Hl1]; [discriminate|]);
+    (destruct (Nat.ltb_spec (length ps) (length vs)) as [Hl2|Hl2]; [discriminate|]);
     (destruct (nodupb ps) eqn:En; cbn [negb]; [|discriminate]);
-    intro H; apply spec_update_ok in H; exists ps; repeat split; auto; try lia;
+    intro Hs; apply spec_update_ok in Hs; exists ps; repeat split; auto; try lia;
     apply nodupb_NoDup; assumption.
 Qed.
 
@@ -479,7 +488,7 @@ Qed.
 (* assign_error_atomic + history invariant *)
 Theorem assign_error_atomic st s :
   (forall d, spec_step (fst st) (snd st) s <> OkNew d) -> spec_exec st s = st.
-Proof. unfold spec_exec. destruct (spec_step _ _ _); intro H; [exfalso; eapply H; reflexivity|reflexivity|reflexivity]. Qed.
+Proof. unfold spec_exec. destruct (spec_step _ _ _) as [d| |w]; intro H; [exfalso; apply (H d); reflexivity|reflexivity|reflexivity]. Qed.
 
 Lemma spec_exec_inv st s :
   wf_mat (snd st) ->
@@ -497,5 +506,146 @@ Theorem assign_history_inv ss : forall st,
 Proof.
   unfold spec_run. induction ss as [|s ss IH]; intros st Hwf; cbn [fold_left]; [auto|].
   destruct (spec_exec_inv st s Hwf) as (Hk & Hr & Hc & Hw).
-  destruct (IH _ Hw) as (Hk' & Hr' & Hc' & Hw'). cbv zeta. repeat split; try congruence. exact Hw'.
+  destruct (IH _ Hw) as (Hk' & Hr' & Hc' & Hw'). cbv zeta. repeat split; congruence || assumption.
+Qed.
+
+(* ================================================================== *)
+(* 4. soundness of the judge                                            *)
+(* ================================================================== *)
+(* What an `ok` verdict asserts about the observed session: after every statement the property fixes,
+   the statement's result and the variable x are what the property demands; a statement the property
+   does not fix only moves the reference point to the observed x (if that still is a matrix of the
+   same kind and shape). *)
+Fixpoint spec_trace (k : String.string) (x : mat sx) (ss : list stmt) (os : list stepobs) {struct ss} : Prop :=
+  match ss, os with
+  | [], [] => True
+  | s :: ss', o :: os' =>
+      match s with
+      | SRead t =>
+          match spec_read x t with
+          | Some es => so_x o = Some (KM k x) /\ obs_elems (so_res o) = Some (k, es) /\ spec_trace k x ss' os'
+          | None => match resync o k x with Some x' => spec_trace k x' ss' os' | None => True end
+          end
+      | SAsg _ _ _ =>
+          match spec_step k x s with
+          | OkNew d => is_val (so_res o) = true /\ so_x o = Some (KM k (Mat (mrows x) (mcols x) d)) /\
+                       spec_trace k (Mat (mrows x) (mcols x) d) ss' os'
+          | MustErr => is_err (so_res o) = true /\ so_x o = Some (KM k x) /\ spec_trace k x ss' os'
+          | NotFixed _ => match resync o k x with Some x' => spec_trace k x' ss' os' | None => True end
+          end
+      end
+  | _, _ => False
+  end.
+
+Definition C04_spec (cs : case) (steps : list stepobs) : Prop :=
+  exists o0 os, steps = o0 :: os /\ so_x o0 = Some (KM (c_kind cs) (c_x cs)) /\
+                spec_trace (c_kind cs) (c_x cs) (c_stmts cs) os.
+
+Definition benign (v : sverdict) : Prop := match v with VOk _ | VAdv _ => True | _ => False end.
+
+Lemma mat_eta {A} (m : mat A) : Mat (mrows m) (mcols m) (mdata m) = m.
+Proof. destruct m; reflexivity. Qed.
+
+Lemma x_is_sound o k r c d : x_is o k r c d = true -> so_x o = Some (KM k (Mat r c d)).
+Proof.
+  unfold x_is. destruct (so_x o) as [v|]; [|discriminate]. intro H. apply kval_eqb_eq in H. congruence.
+Qed.
+
+Lemma judge_step_sound k x s o v nx :
+  judge_step k x s o = (v, nx) -> benign v ->
+  match s with
+  | SRead t =>
+      match spec_read x t with
+      | Some es => so_x o = Some (KM k x) /\ obs_elems (so_res o) = Some (k, es) /\ nx = Some x
+      | None => nx = resync o k x
+      end
+  | SAsg _ _ _ =>
+      match spec_step k x s with
+      | OkNew d => is_val (so_res o) = true /\ so_x o = Some (KM k (Mat (mrows x) (mcols x) d)) /\
+                   nx = Some (Mat (mrows x) (mcols x) d)
+      | MustErr => is_err (so_res o) = true /\ so_x o = Some (KM k x) /\ nx = Some x
+      | NotFixed _ => nx = resync o k x
+      end
+  end.
+Proof.
+  intros E Hb. destruct s as [op t src|t]; cbn [judge_step] in E.
+  - destruct (spec_step k x (SAsg op t src)) as [d| |w].
+    + destruct (andb (is_val (so_res o)) (x_is o k (mrows x) (mcols x) d)) eqn:C.
+      * injection E as <- <-. apply andb_prop in C as [C1 C2]. apply x_is_sound in C2. auto.
+      * exfalso. destruct (kf_class k x (SAsg op t src)); [|injection E as <- _; exact Hb].
+        destruct (mech_step k x (SAsg op t src)) as [[fin pat]|]; [|injection E as <- _; exact Hb].
+        destruct (resync o k x); [|injection E as <- _; exact Hb].
+        destruct (andb _ _); injection E as <- _; exact Hb.
+    + destruct (andb (is_err (so_res o)) (x_is o k (mrows x) (mcols x) (mdata x))) eqn:C.
+      * injection E as <- <-. apply andb_prop in C as [C1 C2]. apply x_is_sound in C2.
+        rewrite mat_eta in C2. auto.
+      * exfalso. destruct (kf_class k x (SAsg op t src)); [|injection E as <- _; exact Hb].
+        destruct (mech_step k x (SAsg op t src)) as [[fin pat]|]; [|injection E as <- _; exact Hb].
+        destruct (resync o k x); [|injection E as <- _; exact Hb].
+        destruct (andb _ _); injection E as <- _; exact Hb.
+    + injection E as _ <-. reflexivity.
+  - destruct (spec_read x t) as [es|].
+    + destruct (x_is o k (mrows x) (mcols x) (mdata x)) eqn:C; cbn [negb] in E.
+      2:{ injection E as <- _. destruct Hb. }
+      apply x_is_sound in C. rewrite mat_eta in C.
+      destruct (obs_elems (so_res o)) as [[k' es']|]; [|injection E as <- _; destruct Hb].
+      destruct (andb (String.eqb k k') (sxs_eqb es es')) eqn:C2; [|injection E as <- _; destruct Hb].
+      injection E as _ <-. apply andb_prop in C2 as [C3 C4].
+      apply String.eqb_eq in C3. apply sxs_eqb_eq in C4. subst. auto.
+    + injection E as _ <-. reflexivity.
+Qed.
+
+Lemma judge_steps_sound ss : forall k x os, Forall benign (judge_steps k x ss os) -> spec_trace k x ss os.
+Proof.
+  induction ss as [|s ss IH]; intros k x [|o os] H; cbn [judge_steps spec_trace] in *.
+  - exact I.
+  - inversion H as [|? ? Hb _]; subst. destruct Hb.
+  - inversion H as [|? ? Hb _]; subst. destruct Hb.
+  - destruct (judge_step k x s o) as [v nx] eqn:E.
+    inversion H as [|? ? Hb Hrest]; subst.
+    pose proof (judge_step_sound _ _ _ _ _ _ E Hb) as S.
+    destruct s as [op t src|t].
+    + destruct (spec_step k x (SAsg op t src)) as [d| |w].
+      * destruct S as (S1 & S2 & ->). repeat split; auto.
+      * destruct S as (S1 & S2 & ->). repeat split; auto.
+      * subst nx. destruct (resync o k x); [apply IH; assumption|exact I].
+    + destruct (spec_read x t) as [es|].
+      * destruct S as (S1 & S2 & ->). repeat split; auto.
+      * subst nx. destruct (resync o k x); [apply IH; assumption|exact I].
+Qed.
+
+Lemma first_bad_none vs : first_bad vs = None -> Forall (fun v => match v with VBad _ _ => False | _ => True end) vs.
+Proof. induction vs as [|[t|t|i|w e] vs IH]; cbn; intro H; try discriminate; constructor; auto. Qed.
+Lemma first_kf_none vs : first_kf vs = None -> Forall (fun v => match v with VKf _ => False | _ => True end) vs.
+Proof. induction vs as [|[t|t|i|w e] vs IH]; cbn; intro H; try discriminate; constructor; auto. Qed.
+
+Lemma summarize_ok vs tag : summarize vs = v_ok tag -> Forall benign vs.
+Proof.
+  unfold summarize. destruct (first_bad vs) as [b|] eqn:Eb.
+  - intro H. exfalso. clear - Eb H. induction vs as [|[t|t|i|w e] vs IH]; cbn in Eb; try discriminate; auto.
+    injection Eb as <-. discriminate.
+  - destruct (first_kf vs) as [f|] eqn:Ef.
+    + intro H. exfalso. clear - Ef H. induction vs as [|[t|t|i|w e] vs IH]; cbn in Ef; try discriminate; auto.
+      injection Ef as <-. discriminate.
+    + intros _. apply first_bad_none in Eb. apply first_kf_none in Ef.
+      rewrite Forall_forall in *. intros v Hv. specialize (Eb v Hv). specialize (Ef v Hv).
+      destruct v; cbn; auto.
+Qed.
+
+Theorem judge_case_sound cs steps tag : judge_case cs steps = v_ok tag -> C04_spec cs steps.
+Proof.
+  unfold judge_case, C04_spec. destruct steps as [|o0 os]; [discriminate|].
+  destruct (x_is o0 (c_kind cs) (mrows (c_x cs)) (mcols (c_x cs)) (mdata (c_x cs))) eqn:E; [|discriminate].
+  intro H. apply summarize_ok in H. apply judge_steps_sound in H.
+  apply x_is_sound in E. rewrite mat_eta in E. eauto.
+Qed.
+
+(* the whole line: an `ok` of the extracted judge means the decoded session satisfies C04_spec *)
+Theorem judge_assign_sound c steps tag :
+  judge_assign (Lx [c; Lx (Ax "session" :: steps)]) = v_ok tag ->
+  exists cs os, decode_case c = Some cs /\ map_opt decode_step steps = Some os /\ C04_spec cs os.
+Proof.
+  cbn [judge_assign]. destruct (decode_case c) as [cs|]; [|discriminate].
+  destruct (map_opt decode_step steps) as [os|]; [|discriminate].
+  intro H. apply judge_case_sound in H. eauto.
 Qed.
